@@ -97,6 +97,14 @@ CLAIMED = {
         "Trusted: z3, CV evaluator; tomllib (evaluated per choice), argparse not exercised.",
         "DESIGN.md §5 C15",
     ),
+    "C11": (
+        "SMT regex equivalence for the reference syntax + symbolic execution of the real convert_link / find_child / Project.find with finite-choice reference texts, decided by z3",
+        "LINK_RE equals the documented [[name(kind):item(kind)]] syntax (both inclusions, unbounded); in each of 7 documentation contexts and for "
+        "every reference spelling of the table the link target is the entity the documented lookup selects (own contents, parent's contents, "
+        "project; qualifiers honoured) and missing targets yield no href.",
+        "Trusted: z3, RX translator, CV evaluator, the lookup oracle in fv/props/c11.py written from the user guide.",
+        "DESIGN.md §5 C11",
+    ),
     "C13": (
         "symbolic execution of the real graph hop expansion on stand-in nodes with symbolic relation and symbolic unbounded limits, decided by z3",
         "For every relation over up to 3 (thorough: 4) nodes (edge presence symbolic; cycles, self loops, diamonds, disconnected parts) and symbolic "
